@@ -852,6 +852,7 @@ func ownHists() [][]wo.WriteOut {
 type prefixCal struct {
 	nW       int
 	colOpens []int
+	colOf    map[int]int // reader step index -> column opened
 }
 
 func calibPrefix(h []wo.WriteOut) (*prefixCal, error) {
@@ -859,10 +860,11 @@ func calibPrefix(h []wo.WriteOut) (*prefixCal, error) {
 	if err != nil {
 		return nil, err
 	}
-	c := &prefixCal{nW: out.wsteps}
+	c := &prefixCal{nW: out.wsteps, colOf: map[int]int{}}
 	for i, l := range out.labels {
 		if l.Kind == 7 {
 			c.colOpens = append(c.colOpens, i)
+			c.colOf[i] = l.B
 		}
 	}
 	return c, nil
@@ -885,6 +887,22 @@ func staleHandle(h []wo.WriteOut) ([]Input, error) {
 		for _, eo := range cals[j].colOpens {
 			res = append(res, Input{Hist: h, Query: true, Sched: []int{cals[j].nW, eo, cals[j+1].nW - cals[j].nW, big}, Why: "stale-handle"})
 			res = append(res, Input{Hist: h, Query: true, Sched: []int{cals[j].nW, eo + 1, cals[j+1].nW - cals[j].nW, big}, Why: "stale-handle"})
+		}
+	}
+	// two complete write-outs: the second one lands r reader calls after the first, i.e. somewhere inside the
+	// recoveries the first one causes (stale handles of the attribute columns: the first open of sip / dip)
+	for j := 1; j+2 <= len(h); j++ {
+		seenCol := map[int]bool{}
+		for _, eo := range cals[j].colOpens {
+			col := cals[j].colOf[eo]
+			if col > 1 || seenCol[col] {
+				continue
+			}
+			seenCol[col] = true
+			for r := 1; r <= 9; r++ {
+				res = append(res, Input{Hist: h, Query: true, Why: "stale-handle-2",
+					Sched: []int{cals[j].nW, eo, cals[j+1].nW - cals[j].nW, r, cals[j+2].nW - cals[j+1].nW, big}})
+			}
 		}
 	}
 	return res, nil
